@@ -14,7 +14,7 @@ import (
 	"github.com/irismod/service/types"
 )
 
-const nScripts = 26
+const nScripts = 30
 
 func runScript(a *App, mon *Mon, seed int64, v int) {
 	p := baseParams()
@@ -342,6 +342,77 @@ func runScript(a *App, mon *Mon, seed int64, v int) {
 		for b := 0; b < 6; b++ {
 			answer(id, p4)
 			s.block()
+		}
+		case 26:
+		// two consumers on different sides of a volume tier start identical contexts (same
+		// service, providers, timeout, cap) in the same block, three times over: each is charged
+		// what its own requests record
+		p4 := s.A.SignProv[3]
+		cons2 := s.A.Consumers[1]
+		s.bind("svc", p4, o2, 5000, fmt.Sprintf(`{"price":"10%s","promotions_by_volume":[{"volume":1,"discount":"0.5"},{"volume":4,"discount":"0.2"}]}`, denom), 1)
+		id := s.call("svc", []sdk.AccAddress{p4}, cons, 100, 2, false, false, 0, 0)
+		s.block()
+		answer(id, p4)
+		blocks(2)
+		for round := 0; round < 3; round++ {
+			a := s.call("svc", []sdk.AccAddress{p4}, cons, 100, 2, false, false, 0, 0)
+			b := s.call("svc", []sdk.AccAddress{p4}, cons2, 100, 2, false, false, 0, 0)
+			s.block()
+			answer(a, p4)
+			if round != 1 {
+				answer(b, p4)
+			}
+			blocks(3)
+		}
+	case 27:
+		// the total lowered below the number of batches already issued (refused), the context
+		// paused inside its last batch and started again after that batch has expired
+		id := s.call("svc", all, cons, 100, 2, false, true, 3, 2)
+		s.block() // batch 1
+		answer(id, p1, p2, p3)
+		blocks(3) // batch 2 of 2 is issued
+		s.r.Msg(types.NewMsgUpdateRequestContext(unhex(id), nil, nil, 0, 0, 1, cons), "total below the batch counter")
+		s.ctl("pause", id, cons)
+		blocks(3) // batch 2 expires while paused
+		s.ctl("start", id, cons)
+		blocks(8)
+		case 28:
+		// ten distinct bindings fail twice in one block and three of them three times (two
+		// ten-provider contexts and three single-provider contexts, all expiring together): every failure
+		// lowers the recorded deposit and burns exactly that much
+		var ten []sdk.AccAddress
+		for i, pr := range append(append([]sdk.AccAddress{}, s.A.SignProv[3:7]...), s.A.OddProv[:3]...) {
+			s.bind("svc", pr, o2, 2000+int64(i), price("1"), 1)
+			ten = append(ten, pr)
+		}
+		ten = append(ten, p1, p2, p3)
+		s.call("svc", ten, cons, 100, 2, false, false, 0, 0)
+		// ... and the same ten once more, named in the opposite order by another consumer
+		rev := make([]sdk.AccAddress, 0, 10)
+		for i := len(ten) - 1; i >= 0; i-- {
+			rev = append(rev, ten[i])
+		}
+		s.call("svc", rev, s.A.Consumers[1], 100, 2, false, false, 0, 0)
+		s.call("svc", []sdk.AccAddress{p1}, cons, 100, 2, false, false, 0, 0)
+		s.call("svc", []sdk.AccAddress{p2}, s.A.Consumers[1], 100, 2, false, false, 0, 0)
+		s.call("svc", []sdk.AccAddress{p3}, cons, 100, 2, false, false, 0, 0)
+		blocks(4)
+	case 29:
+		// the largest list of volume tiers the pricing schema admits (five), one reached after
+		// another: the fee follows the tier that the consumer's volume has reached, up to the last
+		p4 := s.A.SignProv[3]
+		tiers := ""
+		for i, v := range []int{1, 2, 3, 5, 8} {
+			if i > 0 {
+				tiers += ","
+			}
+			tiers += fmt.Sprintf(`{"volume":%d,"discount":"0.%02d1"}`, v, 90-17*i)
+		}
+		s.bind("svc", p4, o2, 200000, fmt.Sprintf(`{"price":"1000%s","promotions_by_volume":[%s]}`, denom, tiers), 1)
+		id := s.call("svc", []sdk.AccAddress{p4}, cons, 1000, 1, false, true, 1, 11)
+		for b := 0; b < 13; b++ {
+			s.block()
+			answer(id, p4)
 		}
 	}
 	s.done()
